@@ -20,6 +20,7 @@
                            + remaining restart budget (rlimit - restarts, restartable steps with a finite limit)
       [state_at .. n], [status_at .. n]  state before / status returned by poll number n of
                            the unstopped loop on an infinite input stream [ps : nat -> pin]
+      [running_upto .. n]  polls 0 .. n-1 all returned RUNNING (the real loop gets to poll n)
       [delivers_terminal c s p]  query OK, not a dry run, and some report for an in-progress
                            instance is FINISHED/FAILED/TIMEDOUT/HWFAILURE/CANCELLED/UNKNOWN
       [noisy c g p]        query OK, not a dry run, and some report is HWFAILURE, or TIMEDOUT for a
@@ -107,16 +108,18 @@ Theorem C05_phi_bound : forall g s, Phi g s <= sumf (fun x => 3 + rlimit (attr g
 Proof. exact Phi_bound. Qed.
 Print Assumptions C05_phi_bound.
 
-(** termination: from every reachable state, on every infinite input stream that is valid, free
-    of query errors, fair (whenever something is in flight, some later poll delivers a terminal
-    report to an in-progress job) and eventually quiet (finitely many HWFAILURE reports and
-    TIMEDOUT reports for unlimited-restart steps), some poll returns a status other than RUNNING
-    -- the monitor loop stops *)
+(** termination: from every reachable state, on every infinite input stream that -- for as long
+    as the loop is running ([running_upto n]: polls 0..n-1 all returned RUNNING) -- is valid, free
+    of query errors and fair (whenever something is in flight, some later poll, if the loop gets
+    that far, delivers a terminal report to an in-progress job), and that is eventually quiet
+    (finitely many polls with HWFAILURE reports or TIMEDOUT reports for unlimited-restart steps):
+    some poll returns a status other than RUNNING -- the monitor loop stops *)
 Theorem C05_terminates : forall c g s (ps : nat -> pin), WF g -> reach_st c g s ->
-  (forall n, valid_pin (state_at c g s ps n) (ps n) = true) ->
-  (forall n, aborts c (ps n) = false) ->
-  (forall n, inprog (state_at c g s ps n) <> [] ->
-             exists m, n <= m /\ delivers_terminal c (state_at c g s ps m) (ps m) = true) ->
+  (forall n, running_upto c g s ps n -> valid_pin (state_at c g s ps n) (ps n) = true) ->
+  (forall n, running_upto c g s ps n -> aborts c (ps n) = false) ->
+  (forall n, running_upto c g s ps n -> inprog (state_at c g s ps n) <> [] ->
+             exists m, n <= m /\
+               (running_upto c g s ps m -> delivers_terminal c (state_at c g s ps m) (ps m) = true)) ->
   (exists N, forall m, N <= m -> noisy c g (ps m) = false) ->
   exists n, status_at c g s ps n <> SRUNNING.
 Proof. exact terminates_reachable. Qed.
@@ -127,8 +130,8 @@ Print Assumptions C05_terminates.
     hence at most Phi of the starting state *)
 Theorem C05_productive_bound : forall c g s (ps : nat -> pin) n, WF g -> reach_st c g s ->
   completion_gen g s = SRUNNING ->
-  (forall k, valid_pin (state_at c g s ps k) (ps k) = true) ->
-  (forall k, aborts c (ps k) = false) ->
+  (forall k, running_upto c g s ps k -> valid_pin (state_at c g s ps k) (ps k) = true) ->
+  (forall k, running_upto c g s ps k -> aborts c (ps k) = false) ->
   (forall m, m < n -> noisy c g (ps m) = false /\ status_at c g s ps m = SRUNNING) ->
   count_productive c g s ps n + Phi g (state_at c g s ps n) <= Phi g s.
 Proof. exact productive_bound_reachable. Qed.
@@ -164,11 +167,14 @@ Proof. exact ex_statuses. Qed.
 Example C05_ex_wf : WF ex_g. Proof. exact ex_wf. Qed.
 Example C05_ex_reach : reach_st ex_c ex_g (init ex_g). Proof. exact ex_reach. Qed.
 Example C05_ex_valid : forall n, valid_pin (state_at ex_c ex_g (init ex_g) ex_ps n) (ex_ps n) = true.
-Proof. exact ex_valid. Qed.
-Example C05_ex_no_error : forall n, aborts ex_c (ex_ps n) = false. Proof. exact ex_no_error. Qed.
+Proof. exact ex_valid_all. Qed.
+Example C05_ex_no_error : forall n, aborts ex_c (ex_ps n) = false. Proof. exact ex_no_error_all. Qed.
 Example C05_ex_fair : forall n, inprog (state_at ex_c ex_g (init ex_g) ex_ps n) <> [] ->
   exists m, n <= m /\ delivers_terminal ex_c (state_at ex_c ex_g (init ex_g) ex_ps m) (ex_ps m) = true.
-Proof. exact ex_fair. Qed.
+Proof. exact ex_fair_all. Qed.
 Example C05_ex_quiet : exists N, forall m, N <= m -> noisy ex_c ex_g (ex_ps m) = false. Proof. exact ex_quiet. Qed.
 Example C05_ex_noisy_prefix : noisy ex_c ex_g (ex_ps 1) = true. Proof. exact ex_not_quiet_before. Qed.
+(** the theorem applied to this history *)
+Example C05_ex_terminates : exists n, status_at ex_c ex_g (init ex_g) ex_ps n <> SRUNNING.
+Proof. exact ex_terminates. Qed.
 Example C05_ex_exit : exit_code (status_at ex_c ex_g (init ex_g) ex_ps 4) = 0%Z. Proof. vm_compute; reflexivity. Qed.
